@@ -154,7 +154,7 @@ def run(ctx):
     ctx.tlc_must_pass(r, "CApi design")
     ctx.require_coverage(r, ["Create", "ObjSet", "ObjGet", "ArrPush", "ArrGet", "ArrChange", "Free", "FreeAgain"])
     # 2. behaviours: all scalars (script shaped), all short histories, random long histories
-    gens = [("mc/CApi_scalars.cfg", None), ("mc/CApi_pushref.cfg", None), ("mc/CApi_gen.cfg", None), ("mc/CApi_sim.cfg", 600 if ctx.tier == "thorough" else 40)]
+    gens = [("mc/CApi_scalars.cfg", None), ("mc/CApi_pushref.cfg", None), ("mc/CApi_gen.cfg", None), ("mc/CApi_sim.cfg", 300 if ctx.tier == "thorough" else 40)]
     behaviours, counts = [], {}
     for cfg, sim in gens:
         w = min(WORKERS, 4)
